@@ -19,6 +19,10 @@ package store
 //     has been moved to peers.info; after a plain restart the configuration is unchanged;
 //   * a refused recovery has destroyed nothing: the operator removes the peers file, the node
 //     starts and serves everything;
+//   * the peers file is the operator's request and stands until it has been carried out: a recovery
+//     attempt that ends without success (Open fails on its environment at any fallible step) leaves
+//     the peers file in place and produces no peers.info; started again with nothing touched, the
+//     node comes up with exactly the peers file's configuration, all its data, the peers file retired;
 //   * "fsmIdx: latest log entry index actually reflected by the FSM": after Open it is the index of
 //     the last command entry of the log or the newest snapshot's index, whichever is greater;
 //   * the clean-snapshot marker means "the SQLite file is unchanged since the most recent snapshot
@@ -59,10 +63,14 @@ func voOpenAgain(w *voWorld, h *voHist, b voBounds, peers int, p int) {
 	wasElectable := w.electable
 	staleRecoveryWAL := w.exists(w.recoveryWALPath())
 	newestIncremental := w.newestSnapshotIsIncremental()
+	infoBefore := w.exists(w.peersInfo())
+	usablePeers := peers != voPeersNone && peers != voPeersNoVoter && peers != voPeersGarbage
+	obstructed := h.tamper == voTamperObstacle
 	// four or more snapshots make the snapshot store reap in the background: outside the bounds
 	verifAssume(w.snapshotCount() < 3)
 	s := w.newStore()
 	w.setPeers(peers)
+	peersAddr := w.selfAddr // the address the peers file names for this node (natively every store listens on a new one)
 	w.s = s
 	failurePoints := b.failures
 	if peers == voPeersNone {
@@ -88,23 +96,56 @@ func voOpenAgain(w *voWorld, h *voHist, b voBounds, peers int, p int) {
 	if w.injected != "" && err == nil {
 		verifReach("injected-failure-tolerated")
 	}
-	if w.injected != "" && err != nil {
+	if err != nil && (w.injected != "" || (obstructed && usablePeers)) {
 		// Open failed because its environment failed: whatever it had done by then, nothing the node
-		// had applied may be lost. The operator takes the peers file away (if it is still there)
-		// and starts the node in a working environment.
-		verifReach("open-failed-on-an-injected-failure")
+		// had applied may be lost, and a request for recovery is not lost either.
+		if w.injected != "" {
+			verifReach("open-failed-on-an-injected-failure")
+		} else {
+			verifReach("recovery-attempt-failed-on-the-obstacle")
+		}
 		if w.injected == "log.DeleteRange" {
 			verifReach("log-compaction-failed-after-the-new-snapshot")
 		}
 		w.abandon()
-		w.removePeers()
+		if usablePeers {
+			// "the node starts with exactly the configuration in the peers file": the peers file is
+			// the operator's request, it stands until it has been carried out. An attempt that ended
+			// without success leaves it where it is and does not produce the record of a completed
+			// recovery (peers.info); the file is retired - as peers.info - only by a recovery that succeeded.
+			if w.exists(w.peersPath()) {
+				verifReach("failed-attempt-left-the-peers-file-in-place")
+				verifAssert("C33-failed-attempt-produces-no-peers-info", w.exists(w.peersInfo()) == infoBefore)
+			} else {
+				verifReach("open-failed-with-the-peers-file-retired")
+				verifAssert("C33-peers-file-retired-only-as-peers-info", w.exists(w.peersInfo()))
+			}
+		}
+		if obstructed {
+			w.obstacle(false)
+		}
+		// The operator either gives up on the recovery (takes the peers file away if it is still
+		// there) or changes nothing; then the node is started in a working environment.
+		giveUp := !usablePeers || w.choose(verifName("operator-gives-up-", p), 2) == 1
+		if giveUp {
+			w.removePeers()
+		}
 		s = w.newStore()
 		w.s = s
 		err = s.Open()
 		verifSettle()
-		verifAssert("C33-failed-open-destroys-nothing", err == nil)
-		recovering = false
-		confKnown = false // the failed recovery may or may not have installed the peers configuration
+		if giveUp {
+			verifAssert("C33-failed-open-destroys-nothing", err == nil)
+			recovering = false
+			confKnown = false // the failed recovery may or may not have installed the peers configuration
+		} else {
+			// nothing was touched: the recovery is attempted again (or had been completed before
+			// Open failed) - either way the node is up with exactly the peers file's configuration,
+			// the peers file retired, everything it had applied in place (checked below)
+			verifReach("node-started-again-after-a-failed-attempt")
+			verifAssert("C33-start-after-a-failed-attempt-succeeds", err == nil)
+			recovering = true
+		}
 	} else if peers == voPeersNoVoter || peers == voPeersGarbage {
 		verifReach("unusable-peers-file-refused")
 		verifAssert("C33-unusable-peers-file-refused", err != nil)
@@ -130,6 +171,9 @@ func voOpenAgain(w *voWorld, h *voHist, b voBounds, peers int, p int) {
 		}
 		verifAssert("C33-open-succeeds", err == nil)
 	}
+	if obstructed {
+		w.obstacle(false) // cleared by now in any case
+	}
 	w.started(s)
 
 	if recovering {
@@ -142,7 +186,7 @@ func voOpenAgain(w *voWorld, h *voHist, b voBounds, peers int, p int) {
 		} else if h.last == "restart" {
 			verifReach("recovery-after-restart")
 		}
-		h.conf = voConfOf(peers, w.selfAddr)
+		h.conf = voConfOf(peers, peersAddr)
 		h.last = "recovery"
 	} else {
 		if h.last == "recovery" {
@@ -343,6 +387,26 @@ func VerifC33bForeign() {
 	voRun(w, "VerifC33bForeign", b)
 }
 
+// VerifC33bObstacle: a recovery attempt that ends without success, on the real thing: something
+// that cannot be cleared away lies where the recovery puts its temporary database. If Open fails,
+// the peers file is still in place and no peers.info was produced; the operator clears the obstacle
+// and either starts the node again with nothing else touched (the recovery is carried out now: exactly
+// the peers file's configuration, peers file retired, all data) or takes the peers file away (plain
+// restart, all data). Without a peers file the obstacle does not matter.
+func VerifC33bObstacle() {
+	b := voBounds{reopens: 1, maxOps: []int{2}, ops: []int{voOpWrite, voOpSnapKeep1},
+		tampers: []int{voTamperObstacle},
+		peers:   []int{voPeersNone, voPeersSelf, voPeersSelfPlus, voPeersGarbage}, closeOpt: []int{0, 1}}
+	if verifTier() == 1 {
+		b.maxOps = []int{3}
+		b.ops = voAllOps
+		b.peers = voAllPeers
+	}
+	w := voNewWorld()
+	defer w.cleanup()
+	voRun(w, "VerifC33bObstacle", b)
+}
+
 // VerifC33bInterruptedTwice (thorough): two rounds, each down time may see an interrupted recovery
 // or a foreign temporary database (a recovery after an interrupted one after a completed one ...).
 func VerifC33bInterruptedTwice() {
@@ -389,14 +453,18 @@ func VerifC33bThrice() {
 // VerifC33bFailures (engine only): one call of the environment fails during the Open under test -
 // every call that can fail, one at a time (file removal / rename, the marker write, the database
 // open / checkpoint / swap, the snapshot store and the sink, the log). Either Open tolerates it and
-// everything holds as usual, or Open fails and a restart in a working environment (without the
-// peers file) serves everything the node had applied.
+// everything holds as usual, or Open fails: then a peers file is still in place unless the recovery
+// had been completed (and no peers.info was produced by an attempt that was not), and a restart in a
+// working environment serves everything the node had applied - with nothing touched it comes up
+// with exactly the peers file's configuration (the recovery is attempted again), with the peers file
+// taken away as a plain restart. The peers file names a non-voter next to this node, so that its
+// configuration differs from the one the node had.
 func VerifC33bFailures() {
 	b := voBounds{reopens: 1, maxOps: []int{3}, ops: []int{voOpWrite, voOpSnapKeep1}, tampers: []int{voTamperNone},
-		peers: []int{voPeersNone, voPeersSelf}, closeOpt: []int{0, 1}, failures: 48}
+		peers: []int{voPeersNone, voPeersSelfPlus}, closeOpt: []int{0, 1}, failures: 48}
 	if verifTier() == 1 {
 		b.ops = []int{voOpWrite, voOpSnapKeep1, voOpNoop}
-		b.peers = []int{voPeersNone, voPeersSelf, voPeersThree}
+		b.peers = []int{voPeersNone, voPeersSelf, voPeersSelfPlus, voPeersThree}
 	}
 	w := voNewWorld()
 	defer w.cleanup()
